@@ -64,7 +64,8 @@ def gen_cases(ctx):
             "Lkind": str(rng.choice(gen.L_KINDS)),
             "scale": float(10.0 ** rng.uniform(-16, 3)) if rng.random() < 0.4 else 1.0,
             "p": float(rng.uniform(1, 2)), "nexp": float(rng.uniform(2, 5)), "lam": float(rng.choice([0.0, 5.0, rng.uniform(0, 10), 50.0])),
-            "M": float(rng.choice([0.0, 125.0, rng.uniform(0, 200)])), "phi": float(rng.choice([1.0, rng.uniform(0.01, 1)])),
+            "M": float(rng.choice([0.0, 125.0, rng.uniform(0, 200), 10.0, 1.0, 3.0])), "phi": float(rng.choice([1.0, rng.uniform(0.01, 1), 0.7, 0.05])),
+            "M_int": bool(rng.random() < 0.3),
             "k": float(rng.choice([0.0, 0.37, 2.0, 7.3, 1e3])),
         }
         yield case
@@ -121,6 +122,9 @@ def _direct(ctx, pydrex, case):
     L = L * case["scale"]
     args = (case["combo"], case["regime"], A, f, L, case["p"], case["nexp"], case["lam"])
     M, phi, k = case["M"], case["phi"], case["k"]
+    if case.get("M_int"):
+        M = int(M)      # DefaultParams declares gbm_mobility as an int: integer-typed mobilities are the documented default
+        k = float(int(k)) if k >= 1 else k
     ctx.cls(f"combo={case['combo']}/regime={case['regime']}")
     ctx.cls(f"tex={case['tex']}")
     ctx.cls(f"vol={case['vol']}")
@@ -136,19 +140,19 @@ def _direct(ctx, pydrex, case):
         return
     ctx.case(case, nontrivial=bool(np.any(dA != 0) or np.any(df != 0)))
     ctx.check("output_shapes", dA.shape == (case["n"], 3, 3) and df.shape == (case["n"],), case)
-    drive.rate_manifold_oracle(ctx, A, f, dA, df, M * phi, case, where="direct")
+    drive.rate_manifold_oracle(ctx, A, f, dA, df, M * phi, case, where="direct", Lnorm=float(np.abs(L).sum()))
     if not (np.isfinite(dA).all() and np.isfinite(df).all()):
         return
     # relational: linear in M*, linear in phi, zero at M*=0; orientation rates independent of both
     sc = 1e-300 + float(np.abs(df).max())
-    dA2, df2 = map(np.asarray, call(pydrex, *args, k * M, phi))
+    dA2, df2 = map(np.asarray, call(pydrex, *args, (int(k * M) if case.get("M_int") and float(k * M).is_integer() else k * M), phi))
     ctx.check("linear_in_mobility", bool(np.abs(df2 - k * df).max() <= 1e-12 * max(1.0, k) * sc + 1e-300), case,
               err=float(np.abs(df2 - k * df).max()), k=k)
     kphi = min(1.0, max(1e-3, k if k else 0.5))
     dA3, df3 = map(np.asarray, call(pydrex, *args, M, phi * kphi))
     ctx.check("linear_in_phase_fraction", bool(np.abs(df3 - kphi * df).max() <= 1e-12 * sc + 1e-300), case,
               err=float(np.abs(df3 - kphi * df).max()))
-    _, df0 = call(pydrex, *args, 0.0, phi)
+    _, df0 = call(pydrex, *args, (0 if case.get("M_int") else 0.0), phi)
     ctx.check("zero_mobility_zero_rate", bool(np.all(np.asarray(df0) == 0)), case)
     ctx.check("rotation_independent_of_mobility", bool(np.array_equal(dA2, dA) and np.array_equal(dA3, dA)), case)
     # growth sign vs independent energies
@@ -184,7 +188,7 @@ def _catalogue(ctx, pydrex, case):
         return
     ctx.case(case, nontrivial=True)
     ctx.check("catalogue_returns_finite", bool(np.isfinite(dA).all() and np.isfinite(df).all()), case)
-    drive.rate_manifold_oracle(ctx, A, f, dA, df, 125.0, case, where="direct")
+    drive.rate_manifold_oracle(ctx, A, f, dA, df, 125.0, case, where="direct", Lnorm=float(np.abs(L).sum()))
 
 
 def _integration(ctx, pydrex, case):
